@@ -110,7 +110,46 @@ func c14Sizes(c *hx.Ctx, r *hx.RNG, which int) {
 	}
 }
 
+// c14HugeMantissa: Int64 and Uint64 of a value held in a mantissa of a little more than 2^31 digits (0.9 GB, mostly
+// untouched zero pages; one per run): ddddd.000...07 with five integer digits must come back as (ddddd, Below).
+func c14HugeMantissa(c *hx.Ctx, r *hx.RNG) {
+	n := (1<<31)/19 + r.Range(1, 4)
+	w := make([]decimal.Word, n)
+	d := uint64(r.Range(10000, 99999))
+	w[n-1], w[0] = decimal.Word(d*100000000000000), decimal.Word(r.Range(1, 9))
+	neg := r.Bool()
+	what := fmt.Sprintf("Int64/Uint64 of %d.000...0%d held in %d mantissa words (%d digits), negative=%v", d, w[0], n, 19*n, neg)
+	c.Note(what)
+	x := new(decimal.Decimal).SetPrec(uint(19*n)).SetBitsExp(w, 5)
+	if neg {
+		x.Neg(x)
+	}
+	var i64 int64
+	var u64 uint64
+	var a1, a2 decimal.Accuracy
+	pi := hx.Try(func() {
+		i64, a1 = x.Int64()
+		u64, a2 = x.Uint64()
+	})
+	c.Eval(hx.HashStr(what), true, "getter/mantissa-beyond-2^31-digits")
+	if pi != nil {
+		c.Violate("panic", fmt.Sprintf("%s: %s panic %q at %s", what, pi.Class, pi.Text, pi.Stack), "")
+		return
+	}
+	wi, wa, wu, wua := int64(d), decimal.Below, d, decimal.Below
+	if neg {
+		wi, wa, wu, wua = -int64(d), decimal.Above, 0, decimal.Above
+	}
+	if i64 != wi || a1 != wa || u64 != wu || a2 != wua {
+		c.Violate("Int64", fmt.Sprintf("%s: Int64 = (%d, %v), Uint64 = (%d, %v); want (%d, %v) and (%d, %v)", what, i64, a1, u64, a2, wi, wa, wu, wua), "")
+	}
+}
+
 func c14Case(c *hx.Ctx, r *hx.RNG, idx int64) {
+	if idx%4000000 == 77 {
+		c14HugeMantissa(c, r)
+		return
+	}
 	if m := idx % 4000000; m == 13 || m == 45 { // (same shard, one after the other)
 		c14Sizes(c, r, map[int64]int{13: 0, 45: 1}[m])
 		return
